@@ -72,6 +72,16 @@ func (c c02) Generate(seed uint64, tier string, idx int) *core.Plan {
 	if t == 3 {
 		respHop = world.KAttResp
 	}
+	if t == 5 && idx%32 == 5 {
+		// a batch large enough for a four-byte length prefix (>= 512 tokens): every bit of the prefix
+		for i := range p.Steps {
+			if p.Steps[i].Op == "sess" && p.Steps[i].A[sID] == 1 {
+				p.Steps[i].A[sBatch] = int64(512 + r.Intn(8))
+			}
+		}
+		family = "prefix-of-large-batch"
+		p.Steps = append(p.Steps, core.Step{Op: "fault", S: []string{"enumfliphead"}, A: []int64{1, respHop, 4}})
+	}
 	switch family {
 	case "enumflip":
 		stride := int64(1)
